@@ -55,14 +55,14 @@ def splitBar (ws : List String) : List (List String) :=
   go ws [] []
 
 open Convert in
-def convVar (nv : Nat) (seg : List String) : String :=
+def convVar (taken : List Name) (nv : Nat) (seg : List String) : String :=
   match seg with
   | name :: regs :: fnWords =>
     let regList : List Nat := if regs == "-" then [] else (regs.splitOn ",").map (·.toNat!)
     let upd : Option Fn := match fnWords with
       | ["~"] => none
       | ws => (decFn ws).map (·.1)
-    match flattenVar (decName name) regList upd with
+    match flattenVar taken (decName name) regList upd with
     | none => s!"{name}:free"
     | some f =>
       let consts := constsOf f []
@@ -98,7 +98,9 @@ def handle? (line : String) : Option String :=
     some (s!"{fs.length} " ++ " ".intercalate (fs.map encName))
   | "conv" :: nv :: rest =>
     let segs := (splitBar rest).filter (fun s => !s.isEmpty)
-    some ("set " ++ " ".intercalate (segs.map (convVar nv.toNat!)))
+    -- the names of the network's variables (every variable has a segment)
+    let taken : List Name := segs.filterMap (fun seg => seg.head?.map decName)
+    some ("set " ++ " ".intercalate (segs.map (convVar taken nv.toNat!)))
   | _ => none
 
 end Hctl.GlueProto
